@@ -218,10 +218,35 @@ func (w *world) classify(m *mp.Model, q query, impl string) (string, error) {
 			return "extends-self-loop", nil // a style extending a self-extending style loses that style's descriptors
 		}
 	}
+	if w.inLongCycle() {
+		return "extends-cycle-of-three", nil
+	}
 	if w.extendsTargetVisited(q.styleName()) {
 		return "extends-target-already-visited", nil
 	}
 	return "other", nil
+}
+
+// inLongCycle: some style lies on an extends cycle of length >= 3 (resolveCounter merges the successors it
+// meets before the link that closes the cycle, so a member inherits descriptors of other members).
+func (w *world) inLongCycle() bool {
+	for start := range w.cs {
+		cur := start
+		for n := 1; n <= len(w.cs); n++ {
+			d, ok := w.cs[cur]
+			if !ok || d.System.Extends == "" {
+				break
+			}
+			cur = d.System.System
+			if cur == start {
+				if n >= 3 {
+					return true
+				}
+				break
+			}
+		}
+	}
+	return false
 }
 
 // extendsTargetVisited follows the fallback chain from name the way the code does, with ONE set of
@@ -307,9 +332,14 @@ func (w *world) batch(m *mp.Model, qs []query, out *res.Result, seed uint64) err
 		if a.def {
 			out.Hit("judge:spec-defined")
 			if a.spec != impl {
-				key, err := w.classify(m, q, impl)
-				if err != nil {
-					return err
+				// a known deviation is one the model of the recorded code reproduces: an output that differs
+				// from the model as well is something new, whatever the stylesheet looks like
+				key := "other"
+				if a.kind == "ok" && a.s == impl {
+					var err error
+					if key, err = w.classify(m, q, impl); err != nil {
+						return err
+					}
 				}
 				add(out, res.Finding{Kind: "judge", Op: "judge:counter-style", Input: w.input(q), Impl: impl, Model: a.spec,
 					Reason: "CSS Counter Styles 3 gives " + fmt.Sprintf("%q", a.spec), Key: key, Seed: seed})
@@ -441,6 +471,38 @@ func runAuthor(m *mp.Model, r *rng.R, n int, out *res.Result) error {
 		for _, nm := range names {
 			g := genStyle(cr, nm, names)
 			gs = append(gs, g)
+		}
+		if k >= 2 && cr.P(1, 5) { // an extends cycle of length 2-3 whose members declare different descriptors
+			m := 2
+			if k >= 3 && cr.Bool() {
+				m = 3
+			}
+			distinct := true
+			for j := 0; j < m; j++ {
+				for j2 := 0; j2 < j; j2++ {
+					if names[j] == names[j2] {
+						distinct = false
+					}
+				}
+				if _, ua := tree.UACounterStyle[strings.ToLower(names[j])]; ua {
+					distinct = false
+				}
+			}
+			if distinct {
+				for j := 0; j < m; j++ {
+					gs[j].system, gs[j].extends, gs[j].first = "extends", names[(j+1)%m], nil
+					gs[j].symbols, gs[j].dupSyms, gs[j].additive = nil, nil, nil
+					if gs[j].pad == nil && cr.Bool() {
+						gs[j].pad = &gAdd{cr.Range(2, 5), symPool[cr.Intn(len(symPool))]}
+					}
+					if gs[j].negative == nil && cr.Bool() {
+						gs[j].negative = []string{"~"}
+					}
+				}
+				out.Hit(fmt.Sprintf("author:extends-cycle:%d", m))
+			}
+		}
+		for _, g := range gs {
 			rules = append(rules, g.css(cr))
 		}
 		css := strings.Join(rules, "\n")
